@@ -106,6 +106,13 @@ def build_trace(obj, events, results):
 
 
 def check_group(job):
+    try:
+        return _check_group(job)
+    finally:
+        dsreplay.LEVELS_SINGLE_PRECISION = False
+
+
+def _check_group(job):
     """job = (dataset obj (no seq), list of sequences, fmt[, record]). Returns dict(n, traces, divs, recorded)."""
     import os
     record = len(job) > 3 and job[3]
@@ -126,6 +133,7 @@ def check_group(job):
         rep["step"] = step
         out["divs"].append((site, detail, rep))
 
+    dsreplay.LEVELS_SINGLE_PRECISION = fmt == "netcdf"
     try:
         with quiet():
             inputs, clim = dsreplay.load(obj, fmt, variant)
